@@ -19,8 +19,8 @@ impl Chunk {
             idx >= old(self).instructions@.len() ==> r is None && final(self).instructions@ == old(self).instructions@,
     { unimplemented!() }
 }
-#[verifier::external_body]
-pub struct Expression { _p: () }
+/// the one variant the set-block arm looks at; every other variant of the real enum collapsed
+pub enum Expression { Filter(Spanned<Filter>), VxOther(VxOpaque) }
 #[verifier::external_body]
 pub struct Node { _p: () }
 /// a set of variable names (HashSet<String>): contents not needed here
@@ -33,7 +33,7 @@ pub fn vx_set_insert(s: &mut VxSet, v: String) -> bool { unimplemented!() }
 #[verifier::external_body]
 pub fn vx_clone_string(s: &String) -> (r: String) ensures r@ == s@ { unimplemented!() }
 #[verifier::external_body]
-#[verifier::reject_recursive_types(T)]
+#[verifier::accept_recursive_types(T)]
 pub struct Spanned<T> { _p: core::marker::PhantomData<T> }
 pub uninterp spec fn bop_of(e: Spanned<BinaryOperation>) -> BinaryOperator;
 impl Spanned<BinaryOperation> {
@@ -51,3 +51,32 @@ impl Spanned<Ternary> {
     #[verifier::external_body]
     pub fn into_parts(self) -> (Ternary, Span) { unimplemented!() }
 }
+// ---- set / set block arms
+#[verifier::external_body]
+pub struct VxKwargs { _p: () }
+#[verifier::external_body]
+pub struct VxCalls { _p: () }
+/// `calls.entry(name).or_default().push(span)`
+#[verifier::external_body]
+pub fn vx_record_call(c: &mut VxCalls, name: String, span: Span) { unimplemented!() }
+#[verifier::external_body]
+pub fn vx_clone_span(s: &Span) -> Span { unimplemented!() }
+/// `Vec::first_mut` / `Vec::last_mut` on the scope stack: the stack keeps its length (what the sets hold is not modelled)
+#[verifier::external_body]
+pub fn vx_sets_first_mut(v: &mut Vec<VxSet>) -> (r: Option<&mut VxSet>)
+    ensures r is Some <==> old(v)@.len() > 0, final(v)@.len() == old(v)@.len()
+{ unimplemented!() }
+#[verifier::external_body]
+pub fn vx_sets_last_mut(v: &mut Vec<VxSet>) -> (r: Option<&mut VxSet>)
+    ensures r is Some <==> old(v)@.len() > 0, final(v)@.len() == old(v)@.len()
+{ unimplemented!() }
+impl Spanned<Filter> {
+    #[verifier::external_body]
+    pub fn into_parts(self) -> (Filter, Span) { unimplemented!() }
+}
+/// `filters.first().map(|f| f.span().clone())`
+#[verifier::external_body]
+pub fn vx_first_span(v: &Vec<Expression>) -> Option<Span> { unimplemented!() }
+/// ASSUMED bound: an AST list is far shorter than 2^27
+#[verifier::external_body]
+pub proof fn axiom_ast_small(n: nat) ensures n < 0x0800_0000 {}
